@@ -2,6 +2,10 @@ import Infretis.Lemmas.StoreCodec
 import Infretis.Lemmas.StoreProt
 import Infretis.Lemmas.StoreLag
 import Infretis.Lemmas.StoreNR
+import Infretis.Lemmas.StorePath
+import Infretis.Lemmas.StoreTextFile
+import Infretis.Lemmas.StoreMove
+import Infretis.Lemmas.StoreRestart
 /-!
 # C14 — stored paths read back unchanged; live paths never lose files
 
@@ -642,6 +646,752 @@ theorem never_deletes_restart_referenced_calls (n : Nat) (d a : Bool) (paths : L
 /-- an accepted zero swap (two replacements in one call) with two interfaces (n = 3), delete_old on -/
 example : callsOK 2 0 [.replace 0 ["a.xyz"] [], .replace 1 ["b.xyz"] [], .finish,
     .replace 2 ["c.xyz"] [], .replace 3 ["d.xyz"] [], .finish, .replace 4 ["e.xyz"] [], .finish] := by
+  decide
+
+/-! ## Part A, continued — the `Path` object: limits never cut a stored path -/
+
+/-- **Round trip at every length, whatever the default limit.** `load_path` builds the path with
+    `Path()` — limit `lim` = `DEFAULT_MAXLEN`, bound at definition time — and puts the frames into
+    `phasepoints` directly: the loaded path has all frames of the stored one, also when the stored
+    path is longer than that limit (`maxlength` is a free user setting), and carries the limit. -/
+theorem load_path_roundtrip_any_limit (lim : Option Int) (step : Nat) (mv : List String) (fs : List Frame)
+    (hne : fs ≠ []) (c : Nat) (hc : ∀ f ∈ fs, f.order.length = c) :
+    loadStoredPath .push lim (store step mv fs) = .ok { maxlen := lim, pts := fs.map expected } := by
+  unfold loadStoredPath
+  rw [loadPath_push]
+  have h := load_store_roundtrip step mv fs hne c hc
+  unfold loadStored at h
+  rw [h]
+
+/-- three frames through a default limit of two -/
+example : (loadStoredPath .push (some 2) (store 7 ["ki"]
+    [{ dir := "w0", base := "a.xyz", idx := some 0, velRev := false, order := [1], vpot := some 5, ekin := none },
+     { dir := "w0", base := "a.xyz", idx := some 1, velRev := true, order := [2], vpot := none, ekin := none },
+     { dir := "w1", base := "b.xyz", idx := some 0, velRev := false, order := [3], vpot := none, ekin := some 6 }])).toOption.map
+      (fun p => (p.maxlen, p.pts.length, p.pts.map (·.base))) = some (some 2, 3, ["a.xyz", "a.xyz", "b.xyz"]) := by
+  rfl
+
+/-- **Same length**, stated for the real default: however long the stored path is (100 000,
+    100 001, …), `load_path` returns a path of exactly that length. -/
+theorem load_path_same_length (step : Nat) (mv : List String) (fs : List Frame)
+    (hne : fs ≠ []) (c : Nat) (hc : ∀ f ∈ fs, f.order.length = c) :
+    ∃ p, loadStoredPath .push (some defaultMaxlen) (store step mv fs) = .ok p ∧ p.pts.length = fs.length ∧
+      p.maxlen = some defaultMaxlen :=
+  ⟨_, load_path_roundtrip_any_limit (some defaultMaxlen) step mv fs hne c hc, by simp, rfl⟩
+
+/-- **The variant through `Path.append`** (what `load_path` must not do): the loaded path is the
+    stored one cut at the default limit — frames, file references, order parameters and energies
+    beyond it are dropped without an error. -/
+theorem load_path_via_append (lim : Option Int) (step : Nat) (mv : List String) (fs : List Frame)
+    (hne : fs ≠ []) (c : Nat) (hc : ∀ f ∈ fs, f.order.length = c) :
+    loadStoredPath .viaAppend lim (store step mv fs) =
+      .ok { maxlen := lim, pts := match lim with
+                                  | none => fs.map expected
+                                  | some m => (fs.map expected).take m.toNat } := by
+  unfold loadStoredPath loadPath
+  rw [loadFrames_store step mv fs hne c hc]
+  simp only [fill_append_empty]
+  cases lim with
+  | none =>
+    have h := loadEnergies_store step mv fs hne fs.length
+    rw [List.take_of_length_le (by simp), List.take_of_length_le (by simp)] at h
+    simp only [h]
+  | some m =>
+    simp only [loadEnergies_store step mv fs hne m.toNat]
+
+/-- with the variant, a stored path longer than the limit comes back with another length -/
+theorem load_path_via_append_truncates (m : Int) (hm : 0 ≤ m) (step : Nat) (mv : List String) (fs : List Frame)
+    (hlen : m < fs.length) (c : Nat) (hc : ∀ f ∈ fs, f.order.length = c) :
+    ∃ p, loadStoredPath .viaAppend (some m) (store step mv fs) = .ok p ∧ (p.pts.length : Int) = m ∧
+      p.pts.length ≠ fs.length := by
+  have hne : fs ≠ [] := by
+    intro h; subst h; simp at hlen; omega
+  refine ⟨_, load_path_via_append (some m) step mv fs hne c hc, ?_, ?_⟩
+  · simp only [List.length_take, List.length_map]
+    omega
+  · simp only [List.length_take, List.length_map]
+    omega
+
+/-- in particular at the real default: 100 001 stored frames would come back as 100 000 -/
+theorem load_path_via_append_default (step : Nat) (mv : List String) (fs : List Frame)
+    (hlen : fs.length = 100001) (c : Nat) (hc : ∀ f ∈ fs, f.order.length = c) :
+    ∃ p, loadStoredPath .viaAppend (some defaultMaxlen) (store step mv fs) = .ok p ∧ p.pts.length = 100000 := by
+  obtain ⟨p, h1, h2, _⟩ := load_path_via_append_truncates defaultMaxlen (by decide) step mv fs
+    (by rw [hlen]; decide) c hc
+  refine ⟨p, h1, ?_⟩
+  have : (p.pts.length : Int) = 100000 := h2
+  omega
+
+example (f : Frame) : (List.replicate 100001 f).length = 100001 ∧ ∀ g ∈ List.replicate 100001 f, g.order.length = f.order.length :=
+  ⟨List.length_replicate, fun g hg => by rw [List.eq_of_mem_replicate hg]⟩
+
+/-- the round trip is NOT a theorem for the variant: three frames, limit two -/
+theorem load_path_via_append_counterexample :
+    ¬ (∀ (lim : Option Int) (step : Nat) (mv : List String) (fs : List Frame), fs ≠ [] →
+        ∀ c, (∀ f ∈ fs, f.order.length = c) →
+        ∃ p, loadStoredPath .viaAppend lim (store step mv fs) = .ok p ∧ p.pts.length = fs.length) := by
+  intro h
+  let f : Frame := { dir := "w", base := "a.xyz", idx := some 0, velRev := false, order := [1], vpot := none, ekin := none }
+  obtain ⟨p, hp, hl⟩ := h (some 2) 0 [] [f, f, f] (by simp) 1 (by simp [f])
+  obtain ⟨q, hq, hq2, _⟩ := load_path_via_append_truncates 2 (by decide) 0 [] [f, f, f] (by decide) 1 (by simp [f])
+  rw [hp] at hq
+  injection hq with hq
+  subst hq
+  simp at hl
+  omega
+
+/-! ### load_paths_from_disk: every active path comes back whole, with the configured maximum length -/
+
+/-- the archive `PathStorage.output` leaves for a stored path -/
+def archiveOf (step : Nat) (mv : List String) (fs : List Frame) : Archive :=
+  { traj := some (store step mv fs).traj, order := some (store step mv fs).order,
+    energy := some (store step mv fs).energy, files := (store step mv fs).accepted }
+
+/-- **Restart load.** If every path number in `current.active` holds a stored path (≥ 1 frame, the
+    same number of order parameters in all frames of a path), `load_paths_from_disk` returns them
+    all, in order, each with all its frames — whatever the default limit of `Path()` — with
+    `maxlen` = the configured `maxlength` and its number. -/
+theorem load_paths_from_disk_roundtrip (deflim maxlength : Option Int) (restarted : Bool)
+    (disk : Nat → Archive) (content : Nat → Nat × List String × List Frame) :
+    ∀ (active : List Nat),
+      (∀ pn ∈ active, disk pn = archiveOf (content pn).1 (content pn).2.1 (content pn).2.2 ∧ (content pn).2.2 ≠ [] ∧
+        ∃ c, ∀ f ∈ (content pn).2.2, f.order.length = c) →
+      ∃ ps, loadPathsFromDisk .push deflim maxlength restarted disk active = .ok ps ∧
+        ps.map (·.number) = active ∧
+        ps.map (fun l => l.path.pts) = active.map (fun pn => (content pn).2.2.map expected) ∧
+        ∀ l ∈ ps, l.path.maxlen = maxlength ∧ l.status = (if restarted then "re" else "ld") := by
+  intro active
+  induction active with
+  | nil => intro _; exact ⟨[], rfl, rfl, rfl, fun l hl => absurd hl (by simp)⟩
+  | cons pn rest ih =>
+    intro h
+    obtain ⟨hd, hne, c, hc⟩ := h pn (by simp)
+    obtain ⟨ps, hps, h1, h2, h3⟩ := ih (fun q hq => h q (List.mem_cons_of_mem _ hq))
+    have hl := load_path_roundtrip_any_limit deflim (content pn).1 (content pn).2.1 (content pn).2.2 hne c hc
+    unfold loadStoredPath at hl
+    unfold loadPathsFromDisk
+    rw [hd]
+    simp only [archiveOf, hl, hps]
+    refine ⟨_, rfl, by simp [h1], by simp [h2], ?_⟩
+    intro l hl'
+    rcases List.mem_cons.mp hl' with e | e
+    · subst e; exact ⟨rfl, rfl⟩
+    · exact h3 l e
+
+example : archiveOf 0 [] [{ dir := "w", base := "a.xyz", idx := some 0, velRev := false, order := [1], vpot := none, ekin := none }]
+    = archiveOf 0 [] [{ dir := "w", base := "a.xyz", idx := some 0, velRev := false, order := [1], vpot := none, ekin := none }] ∧
+    ([{ dir := "w", base := "a.xyz", idx := some 0, velRev := false, order := [1], vpot := none, ekin := none }] : List Frame) ≠ [] := by
+  exact ⟨rfl, by simp⟩
+
+/-! ### the storing side: `PathStorage.output` moves the files of `path.copy()` -/
+
+/-- **A path within its own limit is stored whole**: `Path.copy` (through `Path.append`) returns all
+    frames, so the files moved and the path returned are those of the whole path — the storing
+    side of the object model coincides with `store`. -/
+theorem storeObj_of_fits (step : Nat) (mv : List String) (p : PathObj Frame) (h : p.fits) :
+    (storeObj step mv p).1.traj = (store step mv p.pts).traj ∧
+    (storeObj step mv p).1.order = (store step mv p.pts).order ∧
+    (storeObj step mv p).1.energy = (store step mv p.pts).energy ∧
+    (storeObj step mv p).1.accepted = (store step mv p.pts).accepted ∧
+    (storeObj step mv p).1.moves = (store step mv p.pts).moves ∧
+    (storeObj step mv p).2.pts.length = p.pts.length ∧ (storeObj step mv p).2.maxlen = p.maxlen := by
+  unfold storeObj store
+  simp only [copy_of_fits p h, List.length_map, and_self]
+
+/-- **Round trip on Path objects.** A path that respects its own limit (every path built through
+    `Path.append` does, length = limit included), stored by `PathStorage.output` and read by
+    `load_path` under any default limit, comes back whole. -/
+theorem store_load_path_object_roundtrip (lim : Option Int) (step : Nat) (mv : List String) (p : PathObj Frame)
+    (hfit : p.fits) (hne : p.pts ≠ []) (c : Nat) (hc : ∀ f ∈ p.pts, f.order.length = c) :
+    loadStoredPath .push lim (storeObj step mv p).1 = .ok { maxlen := lim, pts := p.pts.map expected } := by
+  have h := load_path_roundtrip_any_limit lim step mv p.pts hne c hc
+  obtain ⟨h1, h2, h3, h4, _⟩ := storeObj_of_fits step mv p hfit
+  unfold loadStoredPath at h ⊢
+  rw [h1, h2, h3, h4]
+  exact h
+
+/-- length = limit is inside the guard -/
+example : ({ maxlen := some 2, pts := [1, 2] } : PathObj Nat).fits ∧ ¬ ({ maxlen := some 2, pts := [1, 2, 3] } : PathObj Nat).fits
+    ∧ ({ maxlen := none, pts := [1, 2, 3] } : PathObj Nat).fits := by decide
+
+/-- two frames in two files, limit one -/
+def overlong : PathObj Frame := { maxlen := some 1, pts :=
+    [{ dir := "w", base := "a.xyz", idx := some 0, velRev := false, order := [1], vpot := none, ekin := none },
+     { dir := "w", base := "b.xyz", idx := some 0, velRev := false, order := [2], vpot := none, ekin := none }] }
+
+theorem overlong_load : loadStoredPath .push none (storeObj 0 [] overlong).1 = .error .assert := by rfl
+
+example : (storeObj 0 [] overlong).1.accepted = ["a.xyz"] ∧ (storeObj 0 [] overlong).2.pts.length = 1 := by decide
+
+/-- the guard is needed: a path object LONGER than its own limit (no code path builds one, but
+    `load_path` of a path longer than the default returns one until `load_paths_from_disk` resets
+    `maxlen`) is written out whole, yet only the files of the first `maxlen` frames are moved —
+    the archive does not load. -/
+theorem storeObj_overlong_counterexample :
+    ¬ (∀ (lim : Option Int) (step : Nat) (mv : List String) (p : PathObj Frame), p.pts ≠ [] →
+        ∀ c, (∀ f ∈ p.pts, f.order.length = c) →
+        ∃ q, loadStoredPath .push lim (storeObj step mv p).1 = .ok q) := by
+  intro h
+  obtain ⟨q, hq⟩ := h none 0 [] overlong (by simp [overlong]) 1 (by simp [overlong])
+  rw [overlong_load] at hq
+  cases hq
+
+
+/-! ## Part A at the level of the TEXT of the three files (characters, fields, widths) -/
+
+section Text
+open Infretis.StoreText
+open Infretis.Codec (NoBrk NoWs Dec unlines)
+
+/-- **Round trip on the text.** For every path object within its own limit, with ≥ 1 frames whose
+    basenames are single tokens (non-empty, no whitespace) and the same number of order parameters
+    in every frame, every cycle number and every `str(path.generated)` without a line break:
+    `PathStorage.output` writes traj.txt / order.txt / energy.txt — `_make_header`, the three
+    `format` generators with their column widths, `write(line + "\n")` — and `load_path` on that text
+    — universal-newline line iteration, `strip`, `startswith("#")`, `split`, `int()`, `float()`, the
+    block reader, the numpy column slices, `Path()` under ANY default limit, `update_energies` —
+    returns, frame by frame: the basename, the index (`None` ↦ 0), the velocity direction, every order
+    parameter as the six-decimal value that was written (`written`: correctly rounded, sign kept,
+    NaN ↦ NaN), the energies likewise and NaN where they were `None`.  Fields wider than their
+    column (long names, large numbers) are included: nothing is ever truncated. -/
+theorem load_store_roundtrip_text (lim : Option Int) (step : Nat) (gen : Str) (p : PathObj TFrame)
+    (hfit : p.fits) (hne : p.pts ≠ []) (hg : NoBrk gen) (hn : ∀ f ∈ p.pts, Tokn f.base)
+    (c : Nat) (hc : ∀ f ∈ p.pts, f.order.length = c) :
+    loadStoredT .push lim (storeT step gen p).1 = .ok { maxlen := lim, pts := p.pts.map expectedT } := by
+  unfold loadStoredT storeT loadPathT
+  simp only [copy_of_fits p hfit]
+  rw [loadFramesT_stored0 step gen hg p.pts hne hn c hc]
+  simp only [fill_push, PathObj.empty, List.nil_append]
+  have h := loadEnergiesT_stored0 step gen hg p.pts hne p.pts.length
+  rw [List.take_of_length_le (by simp), List.take_of_length_le (by simp)] at h
+  simp only [h]
+
+set_option maxRecDepth 8000 in
+/-- a concrete stored path, character for character: a backward frame, a rounding tie
+    (1/128 = 0.0078125 ↦ 0.007812), a tiny negative (↦ -0.000000), a missing energy, a long name -/
+example : (storeT 7 "('sh', 0.5, 3, 10)".toList { maxlen := some 2, pts :=
+    [{ dir := "w0".toList, base := "a.xyz".toList, idx := none, velRev := true, order := [.num false 1 128, .num true 1 10000000],
+       vpot := some (.num true 5 2), ekin := none },
+     { dir := "w1".toList, base := "a_rather_long_file_name.lammpstrj".toList, idx := some 12, velRev := false,
+       order := [.nan, .num false 123456789 1], vpot := none, ekin := some (.num false 0 1) }] }).1.order =
+  ("# Cycle: 7, status: ACC, move: ('sh', 0.5, 3, 10)\n" ++
+   "#     Time       Orderp\n" ++
+   "         0     0.007812    -0.000000\n" ++
+   "         1          nan 123456789.000000\n").toList := by
+  decide
+
+set_option maxRecDepth 8000 in
+example : (storeT 7 [] { maxlen := none, pts :=
+    [{ dir := "w0".toList, base := "a.xyz".toList, idx := none, velRev := true, order := [], vpot := none, ekin := none },
+     { dir := "w1".toList, base := "a_rather_long_file_name.lammpstrj".toList, idx := some 12, velRev := false,
+       order := [], vpot := none, ekin := none }] }).1.traj =
+  ("# Cycle: 7, status: ACC\n" ++
+   "#     Step              Filename       index    vel\n" ++
+   "         0                 a.xyz           0     -1\n" ++
+   "         1  a_rather_long_file_name.lammpstrj          12      1\n").toList := by
+  decide
+
+/-- the header lines `_make_header` produces for the three formatters -/
+theorem headers_text :
+    hdrOrder = "#     Time       Orderp".toList ∧
+    hdrEnergy = "#     Time      Potential        Kinetic".toList ∧
+    hdrTraj = "#     Step              Filename       index    vel".toList := by
+  decide
+
+/-- **The six-decimal guard.** The decimal written for a float of magnitude `n/d` is within half a
+    unit of the sixth decimal: `|m·10⁻⁶ − n/d| ≤ ½·10⁻⁶` (cross-multiplied), and it is the value
+    itself exactly when the value is a multiple of 10⁻⁶. -/
+theorem six_decimals_written (neg : Bool) (n d : Nat) (hd : 0 < d) :
+    ∃ m, written (.num neg n d) = .dec ⟨neg, m⟩ ∧
+      2 * (m * d) ≤ 2 * (n * 1000000) + d ∧ 2 * (n * 1000000) ≤ 2 * (m * d) + d ∧
+      (m * d = n * 1000000 ↔ d ∣ n * 1000000) :=
+  ⟨round6 n d, rfl, (round6_err n d hd).1, (round6_err n d hd).2, round6_exact_iff n d hd⟩
+
+example : written (.num false 1 128) = .dec ⟨false, 7812⟩ ∧ written (.num false 3 128) = .dec ⟨false, 23438⟩ ∧
+    written (.num true 1 10000000) = .dec ⟨true, 0⟩ ∧ written (.num false 1500000 1000000) = .dec ⟨false, 1500000⟩ := by
+  decide
+
+theorem written_reIn (v : FVal) : written (reIn v) = v := by
+  cases v with
+  | dec d => simp [reIn, written, round6_exact]
+  | nan => rfl
+
+theorem expectedT_reframeT (dir : Str) (f : TFrame) : expectedT (reframeT dir (expectedT f)) = expectedT f := by
+  rcases f with ⟨d, b, ix, vr, ord, vp, ek⟩
+  simp only [expectedT, reframeT, idx0, List.map_map, Option.map_some, eIn, written_reIn]
+  congr 1
+  simp only [List.map_inj_left, Function.comp_apply]
+  intro x _
+  exact written_reIn _
+
+/-- **Round trip twice on the text**: storing the loaded path again (from its `accepted/`
+    directory, under another number) and loading that gives the same frames — the archive text is
+    a fixed point after one trip. -/
+theorem load_store_roundtrip_text_twice (lim lim' ml' : Option Int) (step step' : Nat) (gen gen' : Str)
+    (p : PathObj TFrame) (hfit : p.fits) (hne : p.pts ≠ []) (hg : NoBrk gen) (hg' : NoBrk gen')
+    (hn : ∀ f ∈ p.pts, Tokn f.base) (c : Nat) (hc : ∀ f ∈ p.pts, f.order.length = c) (dir : Str)
+    (hfit' : ({ maxlen := ml', pts := (p.pts.map expectedT).map (reframeT dir) } : PathObj TFrame).fits) :
+    loadStoredT .push lim (storeT step gen p).1 = .ok { maxlen := lim, pts := p.pts.map expectedT } ∧
+    loadStoredT .push lim' (storeT step' gen' { maxlen := ml', pts := (p.pts.map expectedT).map (reframeT dir) }).1 =
+      .ok { maxlen := lim', pts := p.pts.map expectedT } := by
+  refine ⟨load_store_roundtrip_text lim step gen p hfit hne hg hn c hc, ?_⟩
+  have h := load_store_roundtrip_text lim' step' gen' { maxlen := ml', pts := (p.pts.map expectedT).map (reframeT dir) }
+    hfit' (by cases hp : p.pts with | nil => exact absurd hp hne | cons a t => simp) hg'
+    (by
+      intro g hg
+      simp only [List.map_map, List.mem_map, Function.comp] at hg
+      obtain ⟨f, hf, rfl⟩ := hg
+      exact hn f hf) c
+    (by
+      intro g hg
+      simp only [List.map_map, List.mem_map, Function.comp] at hg
+      obtain ⟨f, hf, rfl⟩ := hg
+      simp [reframeT, expectedT, hc f hf])
+  rw [h]
+  congr 2
+  simp only [List.map_map]
+  apply List.map_congr_left
+  intro f _
+  exact expectedT_reframeT dir f
+
+/-- the variant of `load_path` through `Path.append`, on the text: cut at the default limit -/
+theorem load_path_via_append_text (lim : Option Int) (step : Nat) (gen : Str) (p : PathObj TFrame)
+    (hfit : p.fits) (hne : p.pts ≠ []) (hg : NoBrk gen) (hn : ∀ f ∈ p.pts, Tokn f.base)
+    (c : Nat) (hc : ∀ f ∈ p.pts, f.order.length = c) :
+    loadStoredT .viaAppend lim (storeT step gen p).1 =
+      .ok { maxlen := lim, pts := match lim with
+                                  | none => p.pts.map expectedT
+                                  | some m => (p.pts.map expectedT).take m.toNat } := by
+  unfold loadStoredT storeT loadPathT
+  simp only [copy_of_fits p hfit]
+  rw [loadFramesT_stored0 step gen hg p.pts hne hn c hc]
+  simp only [fill_append_empty]
+  cases lim with
+  | none =>
+    have h := loadEnergiesT_stored0 step gen hg p.pts hne p.pts.length
+    rw [List.take_of_length_le (by simp), List.take_of_length_le (by simp)] at h
+    simp only [h]
+  | some m =>
+    simp only [loadEnergiesT_stored0 step gen hg p.pts hne m.toNat]
+
+/-- **Trailing blank lines do not matter.** Any number of whitespace-only lines appended to any of
+    the three files of a stored path (an editor's final newline, a half-written line of blanks):
+    `read_some_lines` skips them (`strip` leaves nothing, the parsed row is empty and falsy) and
+    `load_path` returns exactly the stored frames. -/
+theorem load_path_trailing_blank_lines (lim : Option Int) (step : Nat) (gen : Str) (p : PathObj TFrame)
+    (hfit : p.fits) (hne : p.pts ≠ []) (hg : NoBrk gen) (hn : ∀ f ∈ p.pts, Tokn f.base)
+    (c : Nat) (hc : ∀ f ∈ p.pts, f.order.length = c)
+    (b1 b2 b3 : List Str) (h1 : ∀ l ∈ b1, Blank l) (h2 : ∀ l ∈ b2, Blank l) (h3 : ∀ l ∈ b3, Blank l) :
+    loadPathT .push lim (some (unlines (trajLines step p.pts ++ b1))) (some (unlines (orderLines step gen p.pts ++ b2)))
+      (some (unlines (energyLines step gen p.pts ++ b3))) (storeT step gen p).1.accepted =
+      .ok { maxlen := lim, pts := p.pts.map expectedT } := by
+  unfold storeT loadPathT
+  simp only [copy_of_fits p hfit]
+  rw [loadFramesT_stored step gen hg p.pts hne hn c hc b1 b2 h1 h2]
+  simp only [fill_push, PathObj.empty, List.nil_append]
+  have h := loadEnergiesT_stored step gen hg p.pts hne p.pts.length b3 h3
+  rw [List.take_of_length_le (by simp), List.take_of_length_le (by simp)] at h
+  simp only [h]
+
+example : Blank "  \t ".toList ∧ Blank [] ∧ ¬ Blank " x".toList := by
+  refine ⟨⟨by decide, by unfold Codec.NoBrk; decide⟩, ⟨by decide, by unfold Codec.NoBrk; decide⟩, ?_⟩
+  intro h
+  exact absurd (h.1 'x' (by decide)) (by decide)
+
+/-- **An empty order.txt** (zero bytes; likewise one holding only comment lines is a block without
+    rows): `next(orderfile.load())` has nothing to yield — StopIteration, whatever traj.txt holds. -/
+theorem load_path_empty_order_file (v : Fill) (lim : Option Int) (step : Nat) (p : PathObj TFrame)
+    (hn : ∀ f ∈ p.pts, Tokn f.base) (energy : Option Str) :
+    loadPathT v lim (some (unlines (trajLines step p.pts))) (some []) energy ((sourcesT p.pts).map (·.2)) =
+      .error .stopIteration := by
+  unfold loadPathT loadFramesT
+  simp only
+  rw [firstBlockT_traj0 step p.pts hn]
+  simp only [snapshotsT_rows p.pts 0 hn, files_checkT p.pts, not_true_eq_false, if_false]
+  rfl
+
+/-- the hypothesis on basenames is needed: a blank inside a name splits it into two tokens, the row
+    has five columns, `snapshot[1]` is only the first half and `int(snapshot[2])` raises ValueError —
+    the archive does not load -/
+def blankName : PathObj TFrame := { maxlen := none, pts :=
+  [{ dir := "w".toList, base := "a b.xyz".toList, idx := some 0, velRev := false, order := [.num false 1 1], vpot := none, ekin := none }] }
+
+def isOk {α : Type} : Except Err α → Bool
+  | .ok _ => true
+  | .error _ => false
+
+set_option maxRecDepth 8000 in
+theorem blankName_fails : isOk (loadStoredT .push none (storeT 0 [] blankName).1) = false := by decide
+
+theorem roundtrip_text_blank_in_name_counterexample :
+    ¬ (∀ (lim : Option Int) (step : Nat) (gen : Str) (p : PathObj TFrame), p.fits → p.pts ≠ [] → NoBrk gen →
+        ∀ c, (∀ f ∈ p.pts, f.order.length = c) →
+        ∃ q, loadStoredT .push lim (storeT step gen p).1 = .ok q) := by
+  intro h
+  obtain ⟨q, hq⟩ := h none 0 [] blankName (by decide) (by simp [blankName]) (by intro c hc; cases hc) 1
+    (by simp [blankName])
+  have := blankName_fails
+  rw [hq] at this
+  cases this
+
+/-- an empty path is stored but does not load (as on the token level) -/
+theorem load_store_text_empty (lim ml : Option Int) (step : Nat) (gen : Str) (hg : NoBrk gen) :
+    loadStoredT .push lim (storeT step gen { maxlen := ml, pts := [] }).1 = .error .index := by
+  have hc : ({ maxlen := ml, pts := [] } : PathObj TFrame).copy = { maxlen := ml, pts := [] } := by
+    cases ml <;> rfl
+  unfold loadStoredT storeT loadPathT loadFramesT
+  simp only [hc]
+  rw [firstBlockT_traj0 step [] (by intro f hf; cases hf)]
+  simp only [rowsFromT, List.map_nil, snapshotsT, sourcesT, List.all_nil, not_true_eq_false, if_false]
+  rw [firstBlockT_order0 step gen hg [] 0 (by intro f hf; cases hf)]
+  rfl
+
+end Text
+
+/-! ## Part A — the file operations of `_move_path`: every referenced file ends up under the path's own directory -/
+
+/-- **Files, as a theorem about the effect sequence.** A path within its own limit whose frames refer
+    to existing files outside `target = load/<n>/accepted`, any `keep_traj_fnames`, any file system
+    (stale files already in `target` included), provided the names that go to `target` are pairwise
+    different: `_move_path` raises nothing, returns a path of the same length, and afterwards
+    every frame's file lies in `target` under its basename WITH THE CONTENT THE SOURCE HAD, the
+    source is gone (moved, not copied), every entry of the move dict (side files kept through
+    `keep_traj_fnames` included) arrived with its content, and no file outside `target` that is not
+    a source was touched. -/
+theorem move_path_files (keep : List String) (target : String) (p : PathObj Frame) (fs : FS)
+    (hfit : p.fits) (H1 : ∀ f ∈ p.pts, fsGet fs (f.dir, f.base) ≠ none) (H2 : ∀ f ∈ p.pts, f.dir ≠ target)
+    (hnames : ((moveDict fs target keep p.pts).map (·.1.2)).Nodup) :
+    (movePath keep target p fs).2.2 = none ∧
+    (movePath keep target p fs).2.1.pts.length = p.pts.length ∧
+    (∀ f ∈ (movePath keep target p fs).2.1.pts, f.dir = target) ∧
+    (∀ f ∈ p.pts, fsGet (movePath keep target p fs).1 (target, f.base) = fsGet fs (f.dir, f.base) ∧
+                  fsGet (movePath keep target p fs).1 (f.dir, f.base) = none) ∧
+    (∀ e ∈ moveDict fs target keep p.pts, e.2 = (target, e.1.2) ∧ fsGet (movePath keep target p fs).1 e.2 = fsGet fs e.1) ∧
+    (∀ k, k.1 ≠ target → k ∉ (moveDict fs target keep p.pts).map (·.1) → fsGet (movePath keep target p fs).1 k = fsGet fs k) := by
+  obtain ⟨hinv, hkeys⟩ := moveDict_inv fs target keep p.pts H1
+  have hok : DictOk target (moveDict fs target keep p.pts) := by
+    refine ⟨?_, hinv.keys_nodup, hnames⟩
+    intro e he
+    obtain ⟨h1, h2⟩ := hinv.form e he
+    obtain ⟨f, hf, hfd⟩ := List.mem_map.mp h2
+    exact ⟨h1, by rw [← hfd]; exact H2 f hf⟩
+  obtain ⟨s1, s2, s3⟩ := doMoves_spec target _ fs hok hinv.present
+  unfold movePath
+  simp only [copy_of_fits p hfit]
+  refine ⟨s1, by simp, ?_, ?_, ?_, ?_⟩
+  · intro f hf
+    obtain ⟨g, _, rfl⟩ := List.mem_map.mp hf
+    rfl
+  · intro f hf
+    obtain ⟨e, he, hek⟩ := List.mem_map.mp (hkeys f hf)
+    obtain ⟨a, b⟩ := s2 e he
+    have hform := (hok.form e he).1
+    rw [hform, hek] at a
+    rw [hek] at b
+    exact ⟨a, b⟩
+  · intro e he
+    exact ⟨(hok.form e he).1, (s2 e he).1⟩
+  · intro k hk1 hk2
+    refine s3 k hk2 ?_
+    intro hm
+    obtain ⟨e, he, hek⟩ := List.mem_map.mp hm
+    apply hk1
+    rw [← hek, (hok.form e he).1]
+
+/-- **END TO END: store on the file system, then load.** For every path within its own limit, with
+    ≥ 1 frames and the same number of order parameters in all of them, whose frames refer to
+    existing files outside `target`, any `keep_traj_fnames`, any file system, any default limit of
+    `Path()`, provided the names that go to `target` are pairwise different: `PathStorage.output`
+    followed by `load_path` — the model function `outputThenLoad` the driver runs — returns the
+    stored frames (basename, index, velocity direction, six-decimal order parameters, energies or
+    NaN), each referring to a file that exists in `target` with the content its source had. -/
+theorem output_then_load (keep : List String) (target : String) (step : Nat) (mv : List String) (p : PathObj Frame)
+    (fs : FS) (deflim : Option Int) (hfit : p.fits) (hne : p.pts ≠ []) (c : Nat) (hc : ∀ f ∈ p.pts, f.order.length = c)
+    (H1 : ∀ f ∈ p.pts, fsGet fs (f.dir, f.base) ≠ none) (H2 : ∀ f ∈ p.pts, f.dir ≠ target)
+    (hnames : ((moveDict fs target keep p.pts).map (·.1.2)).Nodup) :
+    outputThenLoad keep target step mv p fs deflim = .ok { maxlen := deflim, pts := p.pts.map expected } ∧
+    ∀ f ∈ p.pts, fsGet (movePath keep target p fs).1 (target, (expected f).base) = fsGet fs (f.dir, f.base) := by
+  obtain ⟨m1, _, _, m4, _, _⟩ := move_path_files keep target p fs hfit H1 H2 hnames
+  refine ⟨?_, fun f hf => (m4 f hf).1⟩
+  unfold outputThenLoad
+  simp only [m1]
+  have hfiles : ∀ f ∈ p.pts, f.base ∈ accListing (movePath keep target p fs).1 target := by
+    intro f hf
+    apply mem_accListing
+    rw [(m4 f hf).1]
+    exact H1 f hf
+  unfold loadPath
+  rw [loadFrames_text step mv p.pts hne c hc _ hfiles]
+  simp only [fill_push, PathObj.empty, List.nil_append]
+  have h := loadEnergies_store step mv p.pts hne p.pts.length
+  rw [List.take_of_length_le (by simp), List.take_of_length_le (by simp)] at h
+  simp only [store] at h
+  simp only [h]
+
+example : (outputThenLoad [".adp"] "load/4/accepted" 3 ["ki"] { maxlen := some 2, pts :=
+      [{ dir := "w0", base := "a.xyz", idx := some 0, velRev := true, order := [1], vpot := none, ekin := none },
+       { dir := "w1", base := "b.xyz", idx := some 0, velRev := false, order := [2], vpot := some 4, ekin := none }] }
+    [(("w0", "a.xyz"), 1), (("w0", "a.adp"), 2), (("w1", "b.xyz"), 3), (("load/4/accepted", "a.xyz"), 9)] (some 1)).toOption.map
+      (fun q => q.pts.map (·.base)) = some ["a.xyz", "b.xyz"] := by
+  rfl
+
+/-- without `keep_traj_fnames` the side condition is the property's own assumption: distinct source
+    files have distinct basenames -/
+theorem move_path_files_plain (target : String) (p : PathObj Frame) (fs : FS)
+    (hfit : p.fits) (H1 : ∀ f ∈ p.pts, fsGet fs (f.dir, f.base) ≠ none) (H2 : ∀ f ∈ p.pts, f.dir ≠ target)
+    (H3 : ∀ f ∈ p.pts, ∀ g ∈ p.pts, f.base = g.base → f.dir = g.dir) :
+    (movePath [] target p fs).2.2 = none ∧
+    (∀ f ∈ p.pts, fsGet (movePath [] target p fs).1 (target, f.base) = fsGet fs (f.dir, f.base) ∧
+                  fsGet (movePath [] target p fs).1 (f.dir, f.base) = none) := by
+  have hn : ((moveDict fs target [] p.pts).map (·.1.2)).Nodup := by
+    show ((sourceDict target p.pts).map (·.1.2)).Nodup
+    have : (sourceDict target p.pts).map (·.1.2) = (sources p.pts).map (·.2) := by
+      simp [sourceDict, List.map_map, Function.comp_def]
+    rw [this]
+    exact (stored_files_under_own_dir 0 [] p.pts).2.2 H3
+  obtain ⟨a, _, _, b, _, _⟩ := move_path_files [] target p fs hfit H1 H2 hn
+  exact ⟨a, b⟩
+
+/-- two backward/forward files, a kept `.adp` next to the first, a stale file already in accepted/ -/
+example :
+    let fs : FS := [(("w0", "a.xyz"), 1), (("w0", "a.adp"), 2), (("w1", "b.xyz"), 3), (("load/4/accepted", "a.xyz"), 9), (("w1", "other"), 7)]
+    let p : PathObj Frame := { maxlen := some 3, pts :=
+      [{ dir := "w0", base := "a.xyz", idx := some 0, velRev := true, order := [1], vpot := none, ekin := none },
+       { dir := "w1", base := "b.xyz", idx := some 0, velRev := false, order := [2], vpot := none, ekin := none },
+       { dir := "w1", base := "b.xyz", idx := some 1, velRev := false, order := [3], vpot := none, ekin := none }] }
+    p.fits ∧ ((moveDict fs "load/4/accepted" [".adp"] p.pts).map (·.1.2)).Nodup ∧
+    (movePath [".adp"] "load/4/accepted" p fs).1 =
+      [(("load/4/accepted", "a.adp"), 2), (("load/4/accepted", "b.xyz"), 3), (("load/4/accepted", "a.xyz"), 1), (("w1", "other"), 7)] := by
+  decide
+
+/-- the side condition is needed: two source files with one basename (different directories) — the
+    second move removes what the first one put there; frames of the first file now read the
+    second file's content -/
+theorem move_path_same_basename_counterexample :
+    ¬ (∀ (target : String) (p : PathObj Frame) (fs : FS), p.fits →
+        (∀ f ∈ p.pts, fsGet fs (f.dir, f.base) ≠ none) → (∀ f ∈ p.pts, f.dir ≠ target) →
+        ∀ f ∈ p.pts, fsGet (movePath [] target p fs).1 (target, f.base) = fsGet fs (f.dir, f.base)) := by
+  intro h
+  have := h "acc" { maxlen := none, pts :=
+      [{ dir := "w0", base := "t.xyz", idx := some 0, velRev := false, order := [], vpot := none, ekin := none },
+       { dir := "w1", base := "t.xyz", idx := some 0, velRev := false, order := [], vpot := none, ekin := none }] }
+    [(("w0", "t.xyz"), 1), (("w1", "t.xyz"), 2)] (by decide) (by decide) (by decide)
+    { dir := "w0", base := "t.xyz", idx := some 0, velRev := false, order := [], vpot := none, ekin := none } (by simp)
+  revert this
+  decide
+
+/-- a missing source file raises (FileNotFoundError) after the earlier moves were done -/
+example : (movePath [] "acc" { maxlen := none, pts :=
+      [{ dir := "w0", base := "a.xyz", idx := some 0, velRev := false, order := [], vpot := none, ekin := none },
+       { dir := "w0", base := "gone.xyz", idx := some 0, velRev := false, order := [], vpot := none, ekin := none }] }
+    [(("w0", "a.xyz"), 1)]).2.2 = some .nofile := by decide
+
+/-! ## Part B, continued — histories with RESTARTS between calls -/
+
+/-- a restart is taken between two calls (nothing pending); the other ops as before -/
+def opOkR (s : St) : OpR → Prop
+  | .op o => opOk s o
+  | .restart => s.pending = []
+
+instance (s : St) (o : OpR) : Decidable (opOkR s o) := by
+  cases o <;> unfold opOkR <;> infer_instance
+
+def BoundedR : St → List OpR → Prop
+  | _, [] => True
+  | s, o :: os => opOkR s o ∧ ((stepR s o).2 = none → BoundedR (stepR s o).1 os)
+
+instance decBoundedR : (s : St) → (ops : List OpR) → Decidable (BoundedR s ops)
+  | _, [] => isTrue trivial
+  | s, o :: os =>
+    have d2 : Decidable ((stepR s o).2 = none → BoundedR (stepR s o).1 os) :=
+      if h : (stepR s o).2 = none then
+        match decBoundedR (stepR s o).1 os with
+        | isTrue hb => isTrue (fun _ => hb)
+        | isFalse hb => isFalse (fun f => hb (f h))
+      else isTrue (fun h' => absurd h' h)
+    @instDecidableAnd _ _ inferInstance d2
+
+theorem good_stepR (s : St) (hg : Good s) (hp : Prot s) (o : OpR) : Good (stepR s o).1 := by
+  cases o with
+  | op o => exact good_step s hg o
+  | restart => exact good_restart s hp
+
+theorem prot_stepR (s : St) (hg : Good s) (hp : Prot s) (o : OpR) (hb : opOkR s o) : Prot (stepR s o).1 := by
+  cases o with
+  | op o =>
+    cases o with
+    | replace p f k => exact prot_replace s hg hp hb p f k
+    | finish => exact prot_finish s hg hp
+    | stale p nm => exact prot_stale s hp p nm
+  | restart => exact prot_restart s hp
+
+theorem inv_runR : ∀ (ops : List OpR) (s : St), Good s → Prot s → BoundedR s ops →
+    Good (runR s ops).1 ∧ Prot (runR s ops).1 := by
+  intro ops
+  induction ops with
+  | nil => intro s hg hp _; exact ⟨hg, hp⟩
+  | cons o os ih =>
+    intro s hg hp hb
+    have h1 := good_stepR s hg hp o
+    have h2 := prot_stepR s hg hp o hb.1
+    unfold runR
+    split
+    · rename_i hok
+      exact ih _ h1 h2 (hb.2 hok)
+    · exact ⟨h1, h2⟩
+
+/-- **Live paths and the restart file's paths keep their files, across restarts**: any history of
+    accepted replacements, ends of calls, stale files and restarts between calls (a new
+    REPEX_state from restart.toml, the paths re-read from disk, the deletion queue forgotten). -/
+theorem never_deletes_live_file_restarts (s : St) (hg : Good s) (hp : Prot s) (ops : List OpR) (hb : BoundedR s ops) :
+    (∀ p ∈ (runR s ops).1.live, Intact (runR s ops).1 p) ∧ (∀ p ∈ (runR s ops).1.restart, Intact (runR s ops).1 p) :=
+  ⟨(inv_runR ops s hg hp hb).1.live_intact, (inv_runR ops s hg hp hb).2.restart_intact⟩
+
+theorem stepR_n (s : St) (o : OpR) : (stepR s o).1.n = s.n := by
+  cases o with
+  | op o =>
+    cases o with
+    | replace p f k => exact (replace_ctl s p f k).1
+    | finish => exact (finish_disk s).2
+    | stale p nm => exact (stale_ctl s p nm).1
+  | restart => rfl
+
+/-- **Initial paths are never touched, across restarts.** -/
+theorem never_touches_initial_paths_restarts : ∀ (ops : List OpR) (s : St), Good s → Prot s → BoundedR s ops →
+    ∀ g ∈ s.disk, (g.pn : Int) ≤ (s.n : Int) - 2 → g ∈ (runR s ops).1.disk := by
+  intro ops
+  induction ops with
+  | nil => intro s _ _ _ g h _; exact h
+  | cons o os ih =>
+    intro s hg hp hb g hgd hle
+    have h1 : g ∈ (stepR s o).1.disk := by
+      cases o with
+      | op o =>
+        apply Classical.byContradiction
+        intro hn
+        have := (step_removes_only_dead s hg o g hgd hn).2.1
+        omega
+      | restart => exact hgd
+    unfold runR
+    split
+    · rename_i hok
+      exact ih _ (good_stepR s hg hp o) (prot_stepR s hg hp o hb.1) (hb.2 hok) g h1 (by rw [stepR_n]; exact hle)
+    · exact h1
+
+/-- **A path queued for deletion when the run is restarted is never deleted afterwards** (`pn_olds`
+    is not persisted): a path that is not live, not named by the restart file, not in `traj_data`,
+    not in the queue, and numbered below `traj_num` keeps every file, whatever follows. -/
+def Frozen (s : St) (q : Nat) : Prop :=
+  q ∉ s.live ∧ q ∉ s.restart ∧ q ∉ keys s.trajData ∧ q ∉ keys s.pnOlds ∧ q < s.trajNum
+
+theorem frozen_step (s : St) (hg : Good s) (q : Nat) (hf : Frozen s q) (o : OpR) :
+    Frozen (stepR s o).1 q ∧ ∀ g ∈ s.disk, g.pn = q → g ∈ (stepR s o).1.disk := by
+  obtain ⟨h1, h2, h3, h4, h5⟩ := hf
+  cases o with
+  | restart =>
+    refine ⟨⟨h2, h2, ?_, by simp [restartSt, stepR, keys], h5⟩, fun g hg _ => hg⟩
+    intro hk
+    exact h2 (restart_keys s q hk)
+  | op o =>
+    cases o with
+    | finish =>
+      refine ⟨?_, fun g hgd _ => by show g ∈ (finish s).1.disk; rw [(finish_disk s).1]; exact hgd⟩
+      show Frozen (finish s).1 q
+      unfold finish
+      dsimp only
+      split
+      · exact ⟨h1, h2, fun hk => h3 (popAll_keys_sub _ _ q hk), h4, h5⟩
+      · exact ⟨h1, h1, fun hk => h3 (popAll_keys_sub _ _ q hk), h4, h5⟩
+    | stale p nm =>
+      obtain ⟨_, c2, c3, c4, c5, c6, _⟩ := stale_ctl s p nm
+      refine ⟨?_, fun g hgd _ => stale_disk s p nm g hgd⟩
+      show Frozen (addStale s p nm) q
+      unfold Frozen
+      rw [c2, c3, c4, c5, c6]
+      exact ⟨h1, h2, h3, h4, h5⟩
+    | replace p f k =>
+      have hr := (replace_ctl s p f k).2.1
+      refine ⟨?_, ?_⟩
+      · show Frozen (replace s p f k).1 q
+        rcases replace_fields s p f k with he | ⟨htn, htd, _, ⟨adrOld, hlk⟩, hcase⟩
+        · rw [he]; exact ⟨h1, h2, h3, h4, h5⟩
+        · have hpq : p ≠ q := by
+            intro e; subst e; exact h3 (lookup_keys _ _ _ hlk)
+          have hqt : q ≠ s.trajNum := by omega
+          unfold Frozen
+          rw [hr, htn, htd]
+          refine ⟨?_, h2, ?_, ?_, by omega⟩
+          · rcases hcase with ⟨_, hl, _⟩ | ⟨_, hl, _⟩
+            · rw [hl]; exact h1
+            · rw [hl]
+              intro hm
+              obtain ⟨x, hx, hxe⟩ := List.mem_map.mp hm
+              by_cases hxp : x = p
+              · simp only [hxp, if_true] at hxe; exact hqt hxe.symm
+              · simp only [hxp, if_false] at hxe; subst hxe; exact h1 hx
+          · simp only [keys, List.map_cons, List.mem_cons, not_or]
+            exact ⟨hqt, h3⟩
+          · rcases hcase with ⟨_, _, hk⟩ | ⟨_, _, hk⟩
+            · intro hm; exact h4 (hk q hm)
+            · intro hm
+              rcases hk q hm with h | ⟨h, _⟩
+              · exact h4 h
+              · exact hpq h.symm
+      · intro g hgd hgq
+        apply Classical.byContradiction
+        intro hn
+        obtain ⟨pd, adr, rest, e1, e2, _⟩ := replace_removed s p f k g hgd hn
+        apply h4
+        rw [← hgq, e2, e1]
+        simp [keys]
+
+theorem queued_at_restart_never_deleted : ∀ (ops : List OpR) (s : St), Good s → Prot s → BoundedR s ops →
+    ∀ q, Frozen s q → ∀ g ∈ s.disk, g.pn = q → g ∈ (runR s ops).1.disk := by
+  intro ops
+  induction ops with
+  | nil => intro s _ _ _ q _ g h _; exact h
+  | cons o os ih =>
+    intro s hg hp hb q hf g hgd hgq
+    obtain ⟨hf', hd'⟩ := frozen_step s hg q hf o
+    unfold runR
+    split
+    · rename_i hok
+      exact ih _ (good_stepR s hg hp o) (prot_stepR s hg hp o hb.1) (hb.2 hok) q hf' g (hd' g hgd hgq) hgq
+    · exact hd' g hgd hgq
+
+/-- a path that is in the queue when the run is restarted is frozen from then on -/
+theorem frozen_of_queued (s : St) (hg : Good s) (hj : ∀ p ∈ s.restart, p ∈ s.live) (q : Nat) (hq : q ∈ keys s.pnOlds) :
+    Frozen (restartSt s) q := by
+  obtain ⟨h1, _, h3⟩ := hg.olds_dead q hq
+  have h2 : q ∉ s.restart := fun h => h1 (hj q h)
+  exact ⟨h2, h2, fun hk => h2 (restart_keys s q hk), by simp [restartSt, keys], h3⟩
+
+/-- all of it from the state `load_paths` builds -/
+theorem safety_from_init_restarts (n : Nat) (d a : Bool) (paths : List (Nat × List String)) (v : Variant) (kp : List String)
+    (hn : 1 ≤ n) (hp : ∀ e ∈ paths, e.1 + 1 < n) (ops : List OpR) (hb : BoundedR (init n d a paths v kp) ops) :
+    (∀ p ∈ (runR (init n d a paths v kp) ops).1.live, Intact (runR (init n d a paths v kp) ops).1 p) ∧
+    (∀ p ∈ (runR (init n d a paths v kp) ops).1.restart, Intact (runR (init n d a paths v kp) ops).1 p) ∧
+    (∀ g ∈ initFiles paths, g ∈ (runR (init n d a paths v kp) ops).1.disk) := by
+  obtain ⟨hg, hpr⟩ := init_good n d a paths v kp hn hp
+  obtain ⟨h1, h2⟩ := never_deletes_live_file_restarts _ hg hpr ops hb
+  refine ⟨h1, h2, ?_⟩
+  intro g hgi
+  refine never_touches_initial_paths_restarts ops _ hg hpr hb g hgi ?_
+  obtain ⟨e, he, hpn⟩ := List.mem_map.mp (initFiles_pn paths g hgi)
+  have := hp e he
+  show (g.pn : Int) ≤ (n : Int) - 2
+  omega
+
+/-- the demo history with a restart after the third call: path 2 sits in the queue at the restart
+    and keeps its file to the end; without the restart it is deleted (see the lag example above) -/
+def demoOpsR : List OpR :=
+  (demoOps.take 6).map OpR.op ++ [.restart] ++ (demoOps.drop 6).map OpR.op ++
+    [.op (.replace 6 ["f.xyz"] []), .op .finish, .op (.replace 4 ["g.xyz"] []), .op .finish]
+
+example : BoundedR demoInit demoOpsR ∧ (runR demoInit demoOpsR).2 = none ∧
+    2 ∈ keys (runR demoInit ((demoOps.take 6).map OpR.op)).1.pnOlds ∧
+    DFile.acc 2 "a.xyz" ∈ (runR demoInit demoOpsR).1.disk ∧ keys (runR demoInit demoOpsR).1.pnOlds = [6, 4] ∧
+    DFile.acc 3 "b.xyz" ∉ (runR demoInit demoOpsR).1.disk := by
   decide
 
 end Infretis.C14
